@@ -98,6 +98,15 @@ func hasProp(props []string, p string) bool {
 }
 
 var budgetOverride int
+var incremental bool // with --gen-claims: keep the claims of functions whose claimed obligations all still exist and pass
+
+// funcOfObl: the function part of an obligation name
+func funcOfObl(name string) string {
+	if i := strings.Index(name, "#"); i >= 0 {
+		return name[:i]
+	}
+	return name
+}
 
 func cmdCheck(args []string) {
 	t0 := time.Now()
@@ -113,6 +122,8 @@ func cmdCheck(args []string) {
 			tier = args[i]
 		case "--gen-claims":
 			genClaims = true
+		case "--incremental":
+			incremental = true
 		case "--budget":
 			i++
 			fmt.Sscanf(args[i], "%d", &budgetOverride)
@@ -240,17 +251,54 @@ func cmdCheck(args []string) {
 		r.Obls = append(r.Obls, extra...)
 	}
 
+	// which functions have default (swept) contracts; which need their claims regenerated
+	sweptFn := map[string]bool{}
+	dirtyFn := map[string]bool{}
+	if genClaims && incremental {
+		claims = loadClaims(prop, "thorough")
+	}
+	{
+		present := map[string]bool{}
+		hasClaim := map[string]bool{}
+		for n := range claims.names {
+			hasClaim[funcOfObl(n)] = true
+		}
+		for _, r := range results {
+			if r.Contract != nil && r.Contract.Swept {
+				sweptFn[r.Name()] = true
+			}
+			for _, o := range r.Obls {
+				present[o.Name] = true
+			}
+			if !hasClaim[r.Name()] {
+				dirtyFn[r.Name()] = true
+			}
+		}
+		for n := range claims.names {
+			if !present[n] {
+				dirtyFn[funcOfObl(n)] = true
+			}
+		}
+	}
 	inScope := func(o *Obligation) bool {
 		if o.Result == "known-finding" {
 			return false
 		}
-		if genClaims || tier == "thorough" {
+		base := strings.TrimSuffix(strings.TrimSuffix(o.Name, "@outside-known-region"), "@known-region")
+		if genClaims && incremental {
+			return claims.names[base] || dirtyFn[funcOfObl(base)]
+		}
+		if genClaims {
 			return true
 		}
-		base := strings.TrimSuffix(strings.TrimSuffix(o.Name, "@outside-known-region"), "@known-region")
+		if tier == "thorough" && !sweptFn[funcOfObl(base)] {
+			return true // explicit contracts: every obligation is attempted and reported
+		}
 		return claims.names[base] || claims.complete[o.Func]
 	}
+	fmt.Fprintf(os.Stderr, "[timing] load+vcgen %.1fs (%d functions)\n", time.Since(t0).Seconds(), len(results))
 	solveAll(results, budget, 16, inScope)
+	fmt.Fprintf(os.Stderr, "[timing] first solve pass done at %.1fs\n", time.Since(t0).Seconds())
 	// retry failed claimed obligations with 4x budget before declaring failure
 	retry := func(o *Obligation) bool {
 		if !inScope(o) {
@@ -262,6 +310,23 @@ func cmdCheck(args []string) {
 	}
 	solveAll(results, budget*4, 16, retry)
 
+	if genClaims && incremental {
+		// functions with a claimed obligation that no longer passes are regenerated too
+		more := false
+		for _, r := range results {
+			for _, o := range r.Obls {
+				if claims.names[o.Name] && o.Result != "" && o.Result != "proved" && o.Result != "sat-ok" && o.Result != "known-finding" && !dirtyFn[funcOfObl(o.Name)] {
+					dirtyFn[funcOfObl(o.Name)] = true
+					more = true
+				}
+			}
+		}
+		if more {
+			solveAll(results, budget, 16, func(o *Obligation) bool { return o.Result == "" && inScope(o) })
+		}
+		writeClaimsIncremental(prop, results, dirtyFn)
+		return
+	}
 	if genClaims {
 		writeClaims(prop, results)
 		return
@@ -433,6 +498,43 @@ func writeClaims(prop string, results []*FuncResult) {
 	os.MkdirAll(filepath.Join(verifDir, "claims"), 0o755)
 	os.WriteFile(filepath.Join(verifDir, "claims", prop+".txt"), []byte(strings.Join(lines, "\n")+"\n"), 0o644)
 	fmt.Printf("claims/%s.txt: %d of %d obligations claimed\n", prop, ok, total)
+}
+
+// writeClaimsIncremental keeps the lines of clean functions and regenerates those of dirty ones
+func writeClaimsIncremental(prop string, results []*FuncResult, dirty map[string]bool) {
+	data, _ := os.ReadFile(filepath.Join(verifDir, "claims", prop+".txt"))
+	oldByFn := map[string][]string{}
+	for _, line := range strings.Split(string(data), "\n") {
+		t := strings.TrimSpace(line)
+		if t == "" || strings.HasPrefix(t, "#") {
+			continue
+		}
+		name := strings.TrimPrefix(strings.TrimPrefix(t, "thorough "), "complete ")
+		oldByFn[funcOfObl(name)] = append(oldByFn[funcOfObl(name)], t)
+	}
+	var dirtyResults []*FuncResult
+	var lines []string
+	lines = append(lines, "# claimed obligations for "+prop+" (generated by `mlrvc check --gen-claims`, reviewed, committed; never written by a check run)")
+	kept := 0
+	for _, r := range results {
+		if dirty[r.Name()] {
+			dirtyResults = append(dirtyResults, r)
+			continue
+		}
+		lines = append(lines, oldByFn[r.Name()]...)
+		kept += len(oldByFn[r.Name()])
+	}
+	tmp := prop + ".incr"
+	writeClaims(tmp, dirtyResults)
+	nd, _ := os.ReadFile(filepath.Join(verifDir, "claims", tmp+".txt"))
+	os.Remove(filepath.Join(verifDir, "claims", tmp+".txt"))
+	for _, line := range strings.Split(string(nd), "\n") {
+		if t := strings.TrimSpace(line); t != "" && !strings.HasPrefix(t, "#") {
+			lines = append(lines, t)
+		}
+	}
+	os.WriteFile(filepath.Join(verifDir, "claims", prop+".txt"), []byte(strings.Join(lines, "\n")+"\n"), 0o644)
+	fmt.Printf("claims/%s.txt: kept %d lines of clean functions, regenerated %d functions\n", prop, kept, len(dirtyResults))
 }
 
 func writeEvidence(prop, tier string, seed int, results []*FuncResult, claims *claimSet, extra map[string]interface{}, kfLines []string, wall float64, violations int, errMsg string) {
